@@ -156,6 +156,7 @@ def run(ctx):
         ('conflicts', 1, lambda t: etl.conflicts(t, 'x')), ('duplicates(None)', 1, lambda t: etl.duplicates(t)),
         ('isunique', 1, lambda t: [[etl.isunique(t, 'x'), etl.isunique(t, 'xy')]]), ('duplicates(compound)', 1, lambda t: etl.duplicates(t, ('x', 'xy'))),
     ], 320 if ctx.thorough() else 80)
+    util.exotic_key_cases(etl, rng, ctx, 'C10', 200 if ctx.thorough() else 50)
 
 def replay(d):
     print('replay case:', d.get('case'))
